@@ -1011,6 +1011,157 @@ def run_reader_new_bundle(ctx, label):
              sample={'format': 'v1', 'kind': 'reader meets writer of a new bundle', 'reader_held': held})
 
 
+def run_three_writers(ctx, version, label):
+    """The bundle lock (FileLock with remove_on_unlock, as the compact caches use it) while it changes hands:
+    A holds the lock of an existing bundle, B waits for it (it wants to store a tile), A unlocks and is held right
+    before it unlinks the lock file (for at most PAUSE seconds; a correct lock is still held there and the wait
+    simply runs out), then C stores another tile, while B is held between appending its record and writing its
+    index entry until C is done (or PAUSE ran out).  However the lock is implemented: the two stores must be
+    serialised - the bundle valid, all three tiles readable with their own bytes."""
+    import mapproxy.cache.compact as cc
+    import mapproxy.util.lock as lock_mod
+    d = ctx.tmpdir('c19l')
+    cache_dir = os.path.join(d, 'cache')
+    real = Real(version, cache_dir)
+    PAUSE = 0.7
+    data = {(0, 0, 0): bytes([48]) * 500, (1, 0, 0): bytes([66]) * 1000, (2, 0, 0): bytes([67]) * 3000}
+    real.store([((0, 0, 0), list(data[(0, 0, 0)]))])
+    lock_path = os.path.join(cache_dir, 'L00', 'R0000C0000.lck')
+    a_unlocking, b_inside, c_done, a_has, a_release = (threading.Event() for _ in range(5))
+    th, errors = {}, []
+
+    class OsShim(object):
+        def __getattr__(self, name):
+            return getattr(os, name)
+
+        def remove(self, path):
+            if threading.current_thread() is th.get('A') and path == lock_path:
+                a_unlocking.set()
+                b_inside.wait(PAUSE)
+            return os.remove(path)
+    upd_cls, upd_name = (cc.BundleV2, '_update_tile_offset') if version == 2 else (cc.BundleIndexV1, 'update_tile_offset')
+    orig_upd = getattr(upd_cls, upd_name)
+
+    def paused(self, *a, **kw):
+        if threading.current_thread() is th.get('B'):
+            b_inside.set()
+            c_done.wait(PAUSE)
+        return orig_upd(self, *a, **kw)
+
+    def run_a():
+        try:
+            lck = lock_mod.FileLock(lock_path, remove_on_unlock=True)
+            lck.lock()
+            a_has.set()
+            a_release.wait(20)
+            lck.unlock()
+            del lck
+        except Exception as ex:   # noqa
+            errors.append('A: %r' % (ex,))
+
+    def store(name, coord):
+        r = Real(version, cache_dir).store([(coord, list(data[coord]))])
+        if r != ('ok', True):
+            errors.append('%s: %r' % (name, r))
+    saved_os = lock_mod.os
+    lock_mod.os = OsShim()
+    setattr(upd_cls, upd_name, paused)
+    try:
+        th['A'] = threading.Thread(target=run_a, daemon=True)
+        th['B'] = threading.Thread(target=store, args=('B', (1, 0, 0)), daemon=True)
+        th['C'] = threading.Thread(target=store, args=('C', (2, 0, 0)), daemon=True)
+        th['A'].start()
+        a_has.wait(10)
+        th['B'].start()
+        import time
+        time.sleep(0.15)            # B is polling the lock held by A
+        a_release.set()
+        a_unlocking.wait(10)
+        th['A'].join(20)
+        th['C'].start()
+        th['C'].join(30)
+        c_done.set()
+        th['B'].join(30)
+    finally:
+        for e in (a_release, b_inside, c_done):
+            e.set()
+        lock_mod.os = saved_os
+        setattr(upd_cls, upd_name, orig_upd)
+    if any(t.is_alive() for t in th.values()):
+        ctx.problem('harness', 'three-writer lock schedule (v%d) did not terminate' % version, None)
+        return
+    replay = {'format': 'v%d' % version, 'label': label,
+              'schedule': ['A holds the bundle lock', 'B store_tile(1,0,0) waits for the lock',
+                           'A unlocks (held before the unlink of the lock file)', 'C store_tile(2,0,0)',
+                           'B held between record append and index write until C is done'], 'errors': errors}
+    ctx.count('race=lock-handover,v%d' % version)
+    check_files(ctx, real, replay, 'after the bundle lock changed hands between three writers', strict=False)
+    for coord, want in sorted(data.items()):
+        got = real.load(coord)
+        if got != ('data', want):
+            ctx.fail('v%d,lock-handover-wrong-bytes' % version,
+                     'three writers, lock handed over: load_tile%r returns %s, stored were %d bytes' % (
+                         coord, short(got), len(want)), dict(replay, address=list(coord), got=short(got)))
+    if errors:
+        ctx.fail('v%d,lock-handover-wrong-bytes' % version, 'three writers, lock handed over: %r' % (errors,), replay)
+    ctx.case(('race', version, 'lock-handover'), nontrivial=True,
+             sample={'format': 'v%d' % version, 'kind': 'three writers, lock handed over'})
+
+
+def run_big_tile(ctx, version, label):
+    """A tile of 2^24 + 5 bytes: more than the 24 size bits of a v2 index entry can hold (v1: 32 bits, fine).
+    The store either refuses (an exception; nothing may change for any address) or stores the tile completely; then
+    the cache must keep working and a defragmentation must change nothing."""
+    rng = ctx.rng
+    d = ctx.tmpdir('c19b')
+    cache_dir = os.path.join(d, 'cache')
+    real = Real(version, cache_dir)
+    small = {(3, 4, 1): bytes([rng.randrange(256) for _ in range(20)]), (5, 4, 1): bytes([7]) * 9}
+    for a, b in small.items():
+        real.store([(a, list(b))])
+    big_addr = (4, 4, 1)
+    n = 2 ** 24 + 5
+    big = bytes([rng.randrange(1, 256) for _ in range(64)]) * (n // 64) + bytes([1, 2, 3, 4, 5])
+    assert len(big) == n
+    from io import BytesIO
+    from mapproxy.cache.tile import Tile
+    from mapproxy.image import ImageSource
+    try:
+        res = ('ok', bool(real.cache.store_tile(Tile(big_addr, ImageSource(BytesIO(big))))))
+    except Exception as ex:   # noqa
+        res = ('raised', type(ex).__name__)
+    replay = {'format': 'v%d' % version, 'label': label,
+              'history': ['store (3,4,1): 20 bytes', 'store (5,4,1): 9 bytes', 'store (4,4,1): 2^24 + 5 bytes -> %r' % (res,)]}
+    ctx.count('big-tile,v%d=%s' % (version, res[0]))
+    expect = dict(small)
+    if res == ('ok', True):
+        expect[big_addr] = big
+    addrs = sorted(set(small) | {big_addr, (6, 4, 1)})
+
+    def check(when):
+        for a in addrs:
+            got = real.load(a)
+            want = expect.get(a)
+            if got != (('data', want) if want else ('missing',)):
+                ctx.fail('v%d,big-tile-wrong-bytes' % version,
+                         '%s: load_tile%r returns %s, expected %s' % (
+                             when, a, short(got), 'nothing' if not want else '%d bytes' % len(want)),
+                         dict(replay, when=when, address=list(a), got=short(got)))
+        check_files(ctx, real, replay, when, strict=False)
+    check('after storing a tile of 2^24 + 5 bytes (%s)' % res[0])
+    extra = bytes([9, 8, 7])
+    if real.store([((6, 4, 1), list(extra))]) == ('ok', True):
+        expect[(6, 4, 1)] = extra
+    else:
+        ctx.fail('v%d,big-tile-wrong-bytes' % version, 'the cache does not accept a store after the big tile', replay)
+    check('after a further store')
+    r = real.defrag(0.0, 0)
+    if r[0] != 'ok':
+        ctx.fail('v%d,big-tile-wrong-bytes' % version, 'defragmentation after the big tile raised %s' % r[1], replay)
+    check('after a defragmentation')
+    ctx.case(('big-tile', version), nontrivial=True, sample={'format': 'v%d' % version, 'kind': 'tile of 2^24+5 bytes', 'store': res[0]})
+
+
 # ------------------------------------------------------------------------------------- generators
 
 BOUNDARY_SLOTS = [(0, 0), (127, 127), (0, 127), (127, 0), (1, 0), (0, 1), (12, 99), (99, 12), (64, 64)]
@@ -1342,7 +1493,7 @@ def run(ctx):
     for i, (ops, th) in enumerate(fixed_cases()):
         for version in (1, 2):
             add(version, ops, th, 'fixed-%d' % i, [(12, 99), (99, 12)])
-    nrand = ctx.n(18, 150)
+    nrand = ctx.n(10, 150)
     for i in range(nrand):
         for version in (1, 2):
             nops = ctx.rng.choice([2, 4, 6, 10, 14, 20] if ctx.quick else [2, 4, 6, 10, 14, 20, 30, 45])
@@ -1350,10 +1501,10 @@ def run(ctx):
             add(version, ops, None, 'random-%d' % i)
 
     # bundles beyond 2^32 / 2^33 / close to 2^40 bytes (sparse): every size once per format, then random ones
-    for i, n in enumerate(SPARSE_SIZES if ctx.quick else SPARSE_SIZES * 3):
+    for i, n in enumerate([SPARSE_SIZES[k] for k in (0, 2, 4, 6, 7)] if ctx.quick else SPARSE_SIZES * 3):
         for version in (1, 2):
             add(version, gen_sparse_history(ctx, [n]), None, 'sparse-%d' % i)
-    for i in range(ctx.n(2, 30)):
+    for i in range(ctx.n(1, 30)):
         for version in (1, 2):
             add(version, gen_sparse_history(ctx), None, 'sparse-random-%d' % i)
 
@@ -1364,6 +1515,12 @@ def run(ctx):
                 run_fault_case(ctx, version, gen_fault_history(ctx), 'fault-%d' % i)
             except Exception as ex:   # noqa
                 ctx.problem('harness', 'fault case %d (v%d) could not be run: %r' % (i, version, ex), None)
+    for version in (2, 1):
+        for fn, name in ((run_three_writers, 'lock-handover'), (run_big_tile, 'big-tile')):
+            try:
+                fn(ctx, version, name)
+            except Exception as ex:   # noqa
+                ctx.problem('harness', '%s case (v%d) could not be run: %r' % (name, version, ex), None)
     try:
         run_reader_new_bundle(ctx, 'race-reader-new-bundle')
     except Exception as ex:   # noqa
